@@ -145,14 +145,26 @@ def slots_phase(run, pid):
                 ops += [rng.choice([1, 2]), s0, 0]; exp.append(slots.get(s0 % N, 0))
         lines.append(f"ringslots {N} " + fmt(ops)); want.append(exp)
     rc, outs, err = run_lines(b, lines, line_timeout=60)
+    # the extracted storage model (Disruptor/Slots.v: data[sequence & mask]) and its specification (last write to a congruent
+    # sequence) on the same lines; theorem fresh_ring_is_a_map_on_residues says the two agree for every history
+    try:
+        m_out = driver_eval(["ringslots_entry " + ln.split(" ", 1)[1] for ln in lines], timeout=600)
+        s_out = driver_eval(["ringslots_spec_entry " + ln.split(" ", 1)[1] for ln in lines], timeout=600)
+    except RuntimeError as ex:
+        fatal(run, "the extracted ring-storage model could not be evaluated", str(ex))
     n_ok = 0
     for k, (ln, w) in enumerate(zip(lines, want)):
         run.cov["evaluations"] += 1
         o = outs[k] if k < len(outs) else "<no answer>"
-        if o.split() == [str(x) for x in w]:
+        wl = [str(x) for x in w]
+        if m_out[k].split() != wl or s_out[k].split() != wl:
+            # the three references disagree among themselves: the machinery is broken, not the code
+            fatal(run, "ring-storage references disagree (extracted model / extracted spec / generator's expectation)", f"{ln}\nmodel {m_out[k][:300]}\nspec {s_out[k][:300]}\nexpected {fmt(w)[:300]}")
+        if o.split() == wl:
             n_ok += 1; continue
         run.violation({"kind": "property-oracle-failed-on-implementation", "what": f"ring of {ln.split()[1]} slots: a read through sequence s does not return the value last written to slot s mod N "
-                       "(slots are shared between sequences that are not congruent modulo the ring size, or a slot is lost)", "harness_line": ln, "expected": fmt(w), "got": o, "slots": True,
+                       "(slots are shared between sequences that are not congruent modulo the ring size, or a slot is lost); the extracted model Disruptor/Slots.v and its specification give the expected answer",
+                       "harness_line": ln, "expected": fmt(w), "got": o, "model_output": m_out[k], "slots": True,
                        "rerun": f"cd /verif && python3 bin/check.py {pid} --replay <this file>"})
         break
     run.cov["ring_slot_mapping"] = {"rings": [int(l.split()[1]) for l in lines], "agree": n_ok}
@@ -174,8 +186,9 @@ def replay_ring(pid):
             b, log = cargo_build("ds")
             rc, outs, err = run_lines(b, [d["harness_line"]], line_timeout=60)
             got = outs[0] if outs else "<no answer>"
-            print("expected:", d["expected"][:200]); print("got     :", got[:200])
-            bad = got.split() != d["expected"].split()
+            exp = driver_eval(["ringslots_entry " + d["harness_line"].split(" ", 1)[1]])[0]      # the extracted model on the same line
+            print("model   :", exp[:200]); print("got     :", got[:200])
+            bad = got.split() != exp.split()
             print("REPRODUCED" if bad else "not reproduced"); return 1 if bad else 0
         if "config" not in d:
             print(json.dumps(d, indent=1)[:3000]); return 1
